@@ -6,6 +6,7 @@ import (
 	"regexp"
 	"sort"
 	"strings"
+	"sync/atomic"
 	"testing"
 
 	"google.golang.org/protobuf/proto"
@@ -456,8 +457,15 @@ func c35Compare(inc, batch c35Obs, targets []string) (string, map[string]any) {
 		case extra > 0:
 			what = "incremental and batch runs report different diagnostic sets"
 		}
+		seq := func(ss []diagSnap) []string {
+			var out []string
+			for _, d := range ss {
+				out = append(out, fmt.Sprintf("%s:%d-%d L%d %s", d.File, d.Start, d.End, d.Level, truncStr(d.Message, 50)))
+			}
+			return out
+		}
 		return "diagnostics differ: " + what + eg, map[string]any{"first_difference(baseline=batch, other=incremental)": firstDiff(batch.Snaps, inc.Snaps),
-			"incremental_count": len(ka), "batch_count": len(kb)}
+			"incremental_count": len(ka), "batch_count": len(kb), "batch_sequence": seq(batch.Snaps), "incremental_sequence": seq(inc.Snaps)}
 	}
 	return "", nil
 }
@@ -508,6 +516,23 @@ func c35Step(r *vlib.Run, id string, env *expEnv, par int, files map[string]stri
 		}
 		env.Exec.Evict(keys...)
 	}
+	if env.cancelAt > 0 {
+		// a compilation that is superseded half-way (an editor cancels it with a cause when the k-th file is opened);
+		// whatever it left behind must not show in the next, complete, compilation
+		cctx, cancel := context.WithCancelCause(ctx)
+		var n atomic.Int32
+		k := int32(env.cancelAt)
+		f := func(string) {
+			if n.Add(1) == k {
+				cancel(fmt.Errorf("compilation superseded by a newer edit"))
+			}
+		}
+		env.hook.onOpen.Store(&f)
+		_ = env.runLink(cctx, targets)
+		env.hook.onOpen.Store(nil)
+		cancel(nil)
+		r.Class("cancelled compilation attempt before the step")
+	}
 	inc := c35Observe(env.runLink(ctx, targets), targets)
 	batch := c35Observe(newExpEnv(files, par).runLink(ctx, targets), targets)
 	what, detail := c35Compare(inc, batch, targets)
@@ -542,7 +567,7 @@ func c35Step(r *vlib.Run, id string, env *expEnv, par int, files map[string]stri
 		fc[p] = t
 	}
 	wit := map[string]any{"history": history, "failing_step": step, "edit": name, "touched": touched,
-		"files_after_edit": fc, "targets": targets, "deleted": deleted, "parallelism": par, "fresh_runs_tried": 201}
+		"files_after_edit": fc, "targets": targets, "deleted": deleted, "parallelism": par, "fresh_runs_tried": 201, "cancelled_attempt_at_open": env.cancelAt}
 	for k, v := range detail {
 		wit[k] = v
 	}
@@ -720,9 +745,23 @@ func TestC35(t *testing.T) {
 				}
 				if !applied {
 					name = "rerun-without-edit"
+				} else if rng.Chance(0.3) {
+					// two edits in one step (e.g. a new file and a change to its importer): one eviction call with several keys
+					for try := 0; try < 6; try++ {
+						e := c35Edits[rng.Intn(len(c35Edits))]
+						if e.Name != name && e.Apply(st, rng) {
+							name = name + " + " + e.Name
+							break
+						}
+					}
 				}
 				touched = st.sync()
 			}
+			cancelAt := 0
+			if step > 0 && rng.Chance(0.2) {
+				cancelAt = rng.Range(1, 6)
+			}
+			env.cancelAt = cancelAt
 			history = append(history, map[string]any{"step": step, "edit": name, "touched": touched})
 			if !c35Step(r, id, env, par, st.files, st.targets, touched, name, step, history, sortedKeys(st.deleted)) {
 				return // the long-lived state is off; later steps would repeat the finding
